@@ -167,3 +167,6 @@ impl Leaf for Pc {
 
 /// struct-level destructor event (logged by the `Drop` impl of a shape struct)
 pub fn struct_dropped(first_leaf_id: u32) { ev(format!("T{}", first_leaf_id)); }
+/// destructor of a NESTED struct that implements `Drop`: counted, not named (its first leaf may have been overwritten
+/// through a mutable reference; which values die is recorded by the field events)
+pub fn nested_struct_dropped() { ev("N".to_string()); }
